@@ -124,3 +124,18 @@ def run(ctx) -> None:
               f"{len(shared)} output-metadata derivations are shared by both modes",
               "output metadata/type is derived inside a lazy/eager arm — the two modes can return different "
               "axes metadata or types", "shared-metadata")
+
+
+# ---- added after the seeded change C01-r2seed0: the lazy-only partition of a distribution
+_inner_run_c01 = run
+
+
+def run(ctx) -> None:  # noqa: F811
+    from ..rules import sameslice
+
+    ctx.rule("R-SAMESLICE", "(shared with C19/C36) DistributionFromValues.divide is executed on the lazy path only — "
+             "the eager path evaluates the whole distribution at once: every block it builds takes values and weights "
+             "[Σ : Σ + n] of the receiver (sa/rules/partition.py), otherwise lazily applied weighted distributions "
+             "(focal spread, tilt series) differ from the eager result as soon as the axis is split into blocks")
+    sameslice.check(ctx, ctx.repo.method("abtem.distributions", "DistributionFromValues", "divide"))
+    _inner_run_c01(ctx)
